@@ -1066,7 +1066,23 @@ package lisp
 //@ func stampGuarded
 //@   loop 1 (rangeindex) invariant [idx] -1 <= rangeindex
 //@   keeps LVal.sealed
-//@   property C09
+//@   ensures  [a-node-with-children-is-walked-whether-or-not-it-has-a-position] v != nil && callSite != nil && v != singletonNil && v != singletonTrue && v != singletonFalse && !old(v.sealed) && len(old(v.Cells)) > 0 ==> called("abandoned")
+//@   property C09 C18
+
+// quasiquote rebuilds each template list: every element goes through
+// findAndUnquote (C07: unquote is found at any nesting, also under quotes),
+// and the rebuilt list keeps the position the template form was written at
+// (C18), on the splicing path too.
+//@ func doUnquoteSExpr
+//@   requires env != nil && v != nil && v.Type == LSExpr
+//@   ghost    nfau : int
+//@   counts   nfau findAndUnquote
+//@   loop 1 (rangeindex) invariant [idx] -1 <= rangeindex
+//@   loop 1 (rangeindex) invariant [idx-hi] rangeindex < len(old(v.Cells))
+//@   loop 1 (rangeindex) invariant [every-element-so-far-went-through-findAndUnquote] nfau == old(nfau) + rangeindex + 1
+//@   ensures  [every-element-goes-through-findAndUnquote] result != nil && result.Type != LError ==> nfau == old(nfau) + len(old(v.Cells))
+//@   ensures  [the-rebuilt-list-keeps-the-position-of-the-template-form] result != nil && result.Type != LError && quoteLevel <= 0 ==> result.source == v.source
+//@   property C07 C18
 
 // A helper builtins call directly: New checks the typedef and calls the
 // constructor through FunCall, so it keeps sealed nodes; proved here so that
